@@ -44,12 +44,13 @@ LINE_WATCH = ('abort', '_execute_test_teardown', '_finalize', 'stop')
 
 
 OVER = [False]      # set when execute() has returned: lets a deliberately deaf body end
+DEAF_NAP = [0.5]    # virtual seconds a deaf body sleeps between two looks at OVER
 
 
 def build(program, log):
   h, pe, td, te, ts, th = mods()
 
-  def mk(name, kind, rets=None, deaf=False, waits=False):
+  def mk(name, kind, rets=None, deaf=False, waits=False, noarg=False):
     counter = {'n': 0}
 
     def body(test):
@@ -70,7 +71,7 @@ def build(program, log):
         while not OVER[0]:
           try:
             runtime.yield_point('b1:' + name)
-            time.sleep(0.5)
+            time.sleep(DEAF_NAP[0])
           except th.ThreadTerminationError:
             runtime.vlog('body-kill-ignored', name, kind)
         return None
@@ -85,6 +86,13 @@ def build(program, log):
       if rets and counter['n'] <= len(rets):
         return rets[counter['n'] - 1]
       return None
+
+    if noarg:
+      # a phase function that takes no arguments at all (nothing of the test API is touched before its first statement)
+      inner = body
+
+      def body():  # pylint: disable=function-redefined
+        return inner(None)
 
     body.__name__ = name
     return h.PhaseOptions(name=name)(body)
@@ -105,6 +113,8 @@ def build(program, log):
   test_start = None
   if program == 'plain3':
     nodes = [with_plug(mk('a', 'main')), mk('b', 'main'), mk('c', 'main')]
+  elif program == 'plain3_noarg':
+    nodes = [mk('a', 'main', noarg=True), mk('b', 'main', noarg=True), mk('c', 'main', noarg=True)]
   elif program == 'group':
     nodes = [h.PhaseGroup(setup=[with_plug(mk('s', 'setup'))], main=[mk('m1', 'main'), mk('m2', 'main')],
                           teardown=[mk('t1', 'teardown'), mk('t2', 'teardown')]), mk('after', 'main')]
@@ -208,6 +218,20 @@ def scenario(program, aborts, via, mode=None):
           test.abort_from_sig_int()
           runtime.vlog('abort-return', i)
 
+      if mode == 'overlap':
+        # two operators (threads) abort independently: the second call may arrive while the first is still inside abort()
+        def one_abort(i):
+          gates[i].wait()
+          runtime.vlog('abort-call', i, time.monotonic())
+          test.abort_from_sig_int()
+          runtime.vlog('abort-return', i)
+
+        extra_aborters = [threading.Thread(target=one_abort, args=(i,), name='aborter%d' % i) for i in range(1, aborts)]
+        for x in extra_aborters:
+          x.start()
+
+        def aborter():  # pylint: disable=function-redefined
+          one_abort(0)
       at = threading.Thread(target=aborter, name='aborter')
       at.start()
       if mode == 'tdgap':
@@ -219,7 +243,11 @@ def scenario(program, aborts, via, mode=None):
         flt = GATE_FILTER[0]
         if mode == 'tdgap':       # first abort during a main body, second one between two teardown nodes
           flt = _gate_filter_main if gi == 0 else _gate_filter_tdgap
-        prev = sched.add_gate(g, 'aborter', flt=flt, cost=0, after=prev)
+        if mode == 'overlap':
+          # first abort while the (deaf) main body runs; the second one while the first caller waits inside abort() for the
+          # phase to die
+          flt = _gate_filter_main if gi == 0 else (lambda sched_, me: me is not None and me.name == 'aborter' and me.label.startswith('sleep'))
+        prev = sched.add_gate(g, 'aborter' if (mode != 'overlap' or gi == 0) else 'aborter%d' % gi, flt=flt, cost=0, after=prev)
     else:
       sched.signal_handler = lambda: (runtime.vlog('sigint', bool(td.Test.TEST_INSTANCES), test._executor is not None,  # pylint: disable=protected-access
                                                    not td.Test.HANDLED_SIGINT_ONCE,
@@ -266,6 +294,9 @@ def scenario(program, aborts, via, mode=None):
       for g in gates:
         g.set()          # never-fired gates: let the aborter finish (the test is over: "no running test")
       at.join()
+      if mode == 'overlap':
+        for x in extra_aborters:
+          x.join()
     rec = recs[0] if n_first else None
     return {'res': res, 'outcome': rec.outcome.name if rec is not None and rec.outcome else None, 'n_callbacks': n_first,
             'phases': [(p.name, p.outcome.name if p.outcome else None) for p in rec.phases] if rec is not None else [],
@@ -277,6 +308,7 @@ def scenario(program, aborts, via, mode=None):
 def execute(cfg, choices):
   program, aborts, via = cfg[:3]
   mode = cfg[3] if len(cfg) > 3 else None
+  DEAF_NAP[0] = 70.0 if mode == 'overlap' else 0.5
   GATE_FILTER[0] = GATE_MODES.get(mode if via == 'thread' and mode else 'wide', _gate_filter_quick)
   sched, value = explore.run_under_scheduler(
       scenario(program, aborts, via, mode), choices, focus_targets=focus(), focus_files=FOCUS_FILES, max_steps=60000,
@@ -451,6 +483,17 @@ def _analyse_raw(cfg, ex):
     for i, e in enumerate(ev):
       if e[0] == 'body-start' and e[2] == 'teardown' and i > second:
         out.append(('teardown-after-second-abort', 'teardown body %s started after the second abort() returned' % e[1]))
+  if len(cfg) > 3 and cfg[3] == 'overlap':
+    # two callers: the second request arrives while the first caller is still inside abort() (waiting for the phase to die).
+    # It has to wait its turn and then act -- it must not come back before the first one without having asked the executor
+    calls = [i for i, e in enumerate(ev) if e[0] == 'abort-call']
+    rets = {e[1]: i for i, e in enumerate(ev) if e[0] == 'abort-return'}
+    over = [i for i, e in enumerate(ev) if e[0] in ('plug-teardown-begin', 'execute-return')]
+    if len(calls) == 2 and 0 in rets and 1 in rets and rets[1] < rets[0] and calls[1] > calls[0] and over and rets[1] < over[0] and \
+        any(calls[0] < b < rets[0] for b in abort_begin):
+      if not any(calls[1] < b < rets[1] for b in abort_begin):
+        out.append(('overlapping-abort-dropped', 'a second abort request made while the first caller was still inside abort() returned '
+                    'at once without reaching the executor: the request was dropped'))
   if program == 'group_tdwait' and via == 'thread' and aborts == 2:
     # a second abort issued while the waiting teardown phase runs cancels it: the run is over within cancel_timeout_s
     # (2 s) and some slack -- not when the teardown phase reaches its own timeout (180 s)
@@ -565,7 +608,8 @@ def configs(tier):
             (('repeat', 1, 'thread', 'wide'), 0), (('subtest', 1, 'thread', 'wide'), 0),
             (('group', 1, 'thread', 'main'), 1), (('group', 2, 'thread', 'body'), 0), (('plain3', 1, 'sigint'), 1),
             (('group', 2, 'sigint', 'free'), 0), (('group', 2, 'thread', 'tdgap'), 1), (('nested_td', 1, 'thread', 'wide'), 0), (('group_tdwait', 2, 'thread', 'body'), 0),
-            (('group', 1, 'sigint', 'second'), 0)]
+            (('group', 1, 'sigint', 'second'), 0), (('group_deaf', 2, 'thread', 'overlap'), 0),
+            (('plain3_noarg', 1, 'thread', 'wide'), 0)]
   return [(('plain3', 1, 'thread', 'all'), 1), (('group', 1, 'thread', 'all'), 1), (('trigger', 1, 'thread', 'all'), 1),
           (('repeat', 1, 'thread', 'all'), 1), (('subtest', 1, 'thread', 'all'), 1), (('group', 1, 'thread', 'body'), 2),
           (('group', 2, 'thread', 'wide'), 0), (('group', 2, 'thread', 'body'), 1), (('plain3', 2, 'thread', 'body'), 1),
